@@ -165,7 +165,7 @@ Definition sha_pad (m : bytes) : bytes :=
 
 Definition sha256 (m : bytes) : bytes :=
   let p := sha_pad m in
-  let '(a, b, c, d, e, f, g, h) := sha_blocks (length p / 64) sha_h0 p in
+  let '(a, b, c, d, e, f, g, h) := sha_blocks (length p / 64)%nat sha_h0 p in
   be32 a ++ be32 b ++ be32 c ++ be32 d ++ be32 e ++ be32 f ++ be32 g ++ be32 h.
 
 (** * Checksum shift helpers (deploy/notary.go:791-809) *)
